@@ -306,9 +306,14 @@ def run_impl(case):
     h.inputs, h.outputs = [], []
     if case["mode"] == "global":
         imp = craft.estimate_importance(nb_design=n)
-        flags["sensitivity_stored"] = craft.sensitivity is not None and np.array_equal(craft.sensitivity.importances, imp) \
+        # (NaN importances — zero variance of f(A), outside the property — are "stored" when the same NaNs are stored;
+        # the decreasing order is only meaningful for finite values)
+        imp_arr = np.asarray(imp, dtype=np.float64)
+        flags["sensitivity_stored"] = craft.sensitivity is not None \
+            and np.array_equal(np.asarray(craft.sensitivity.importances, dtype=np.float64), imp_arr, equal_nan=True) \
             and sorted(np.asarray(craft.sensitivity.most_important_concepts).tolist()) == list(range(R)) \
-            and bool(np.all(np.diff(np.asarray(imp)[np.asarray(craft.sensitivity.most_important_concepts)]) <= 0))
+            and (not np.all(np.isfinite(imp_arr)) or
+                 bool(np.all(np.diff(imp_arr[np.asarray(craft.sensitivity.most_important_concepts)]) <= 0)))
     else:
         imp = craft.estimate_importance(xq, nb_design=n)
     imp = np.asarray(imp)
